@@ -593,11 +593,11 @@ def relevant (prop tag : String) : Bool :=
   else if prop == "C03" then pre "c03-" || tag == "router-panic" || tag == "router-halt"
   else if prop == "C06" then pre "c06-"
   else if prop == "C08" then pre "c08-" || pre "c01-"
-  else if prop == "C09" then pre "c09-" || tag == "c01-undelivered-at-idle"
+  else if prop == "C09" then pre "c09-" || pre "c01-" || pre "c06-" || tag == "router-panic" || tag == "router-halt"
   else if prop == "C14" then pre "c14-" || pre "c01-" || pre "c06-" || tag == "router-panic" || tag == "router-halt"
   else if prop == "C15" then pre "c15-"
   else if prop == "C16" then pre "c16-" || pre "c01-"
-  else if prop == "C17" then pre "c17-"
+  else if prop == "C17" then pre "c17-" || tag == "router-panic" || tag == "router-halt"
   else if prop == "C19" then pre "c19-" || tag == "c03-not-serving"
   else if prop == "C20" then pre "c20-" || pre "c01-"
   else true
